@@ -526,3 +526,11 @@ func VerifAlwaysApplies(r *NetworkRule) bool {
 	return r.enabledOptions&(OptionThirdParty|OptionMatchCase) == 0 && r.disabledOptions == 0 &&
 		r.permittedRequestTypes == 0 && r.restrictedRequestTypes == 0 && len(r.permittedDomains) == 0 && len(r.restrictedDomains) == 0
 }
+
+// VerifSourceDomain: the SourceDomain NewRequest derives from a source hostname.
+func VerifSourceDomain(host string) string {
+	if d := effectiveTLDPlusOne(host); d != "" {
+		return d
+	}
+	return host
+}
